@@ -328,8 +328,7 @@ def _atomic_helper(repo, L, fi, wr, helper, call):
         L.fail("R4", helper.short, "helper opens the final cache path for writing in place", helper.loc())
         return
     if not opens:
-        L.fail("R4", helper.short, "helper writes nothing", helper.loc())
-        return
+        raise AnalysisError(f"{helper.short}: publication helper opens nothing itself (it delegates again, or hands out a handle some other way): form not understood")
     for c_, t_ in opens:
         # the opened name may be the final path itself on some path (e.g. `out = tmp if final.exists() else final`)
         defs_ = local_defs(helper, t_) if t_.isidentifier() else []
